@@ -15,6 +15,13 @@
        Denying locally is always allowed (the statement gives an upper bound only).
      * A store failure is legal only while the store really is unreachable; a call that
        does not contact the store is legal only for an instance in fallback mode.
+     * "Sharing a key and a reachable store": fallback mode is for outages.  An instance must be
+       back on the shared bucket once the store has been reachable again for RecoverBound of
+       REAL time (its monitor probes the store every 100 ms), however long the outage lasted.
+       Until then an observer may still find it in fallback mode (Linger); an instance found
+       in fallback mode although the store has provably been reachable for RecoverBound or
+       longer is not allowed by any action: it would answer from a private bucket for ever,
+       and N such instances jointly grant N x (burst + rate x elapsed).
 
    Time: every call carries t = its `now` argument in ms (relative to the start of the
    trace); the shared bucket only sees whole seconds, Sec(t).  A bucket's refill time
@@ -109,6 +116,17 @@ Recover(i) ==
   /\ ~alive[i]
   /\ alive' = [alive EXCEPT ![i] = TRUE]
   /\ UNCHANGED <<rate, burst, tokens, ts, up, lv, llast>>
+
+\* Real time (ms) a reachable store may still find an instance in fallback mode: generous - one
+\* hundred probes of the monitor (pingInterval = 100 ms); the only real-time quantity of this spec.
+RecoverBound == 10000
+
+\* an observer found instance i still in fallback mode while the store had been reachable, without
+\* interruption and as proven by the observer's own probes, for at least ms of real time
+Linger(i, ms) ==
+  /\ ~alive[i] /\ up = "up"
+  /\ ms >= 0 /\ ms < RecoverBound
+  /\ UNCHANGED bvars
 
 Fault(m) ==
   /\ m \in {"up", "flaky", "down"}
